@@ -215,6 +215,24 @@ inline std::string idn_label(ByteSource& b) {
   return s;
 }
 
+// Hosts around the one documented size limit of the host pipeline
+// (ada::idna::max_domain_input_bytes = 16384, include/ada/ada_idna.h).  Off unless a
+// property switches it on: the text is pure ASCII without "xn-" and without '%', so
+// IDNA is never *needed* for it and the documented to_ascii limit is not in play.
+inline bool g_huge_hosts = false;
+
+inline std::string huge_ascii_host(ByteSource& b) {
+  static const char* units[] = {"a", "A", "z", "Z", "aB", "Qz", "a1", "a.b", "A.b", "w-W", "G"};
+  static const unsigned sizes[] = {16384, 16385, 16383, 16386, 16400, 20000, 16384 * 2 + 1, 70000};
+  std::string u = b.pick(units);
+  unsigned t = b.pick(sizes);
+  std::string s = repeat(u, t / u.size() + 1);
+  s.resize(t);
+  if (s.back() == '.' || s.back() == '-') s.back() = 'c';
+  if (b.chance(60)) s.back() = "zbxf0Z"[b.below(6)];   // the can_parse scanner branches on the last character
+  return s;
+}
+
 inline std::string host(ByteSource& b) {
   static const unsigned w[] = {40, 12, 10, 12, 8, 8, 4, 4};
   std::string s;
@@ -251,7 +269,11 @@ inline std::string host(ByteSource& b) {
     case 6: s = ""; break;
     default: s = component_text(b, 4); break;
   }
-  if (b.chance(14)) s = pad_to(b, s);
+  // one byte, as before the huge branch existed (so older corpus files decode the same
+  // with the switch off): [0,14) pad, [14,18) huge host when enabled
+  unsigned r = 255u - b.u8();
+  if (r < 14) s = pad_to(b, s);
+  else if (g_huge_hosts && r < 18) s = huge_ascii_host(b);
   return s;
 }
 
@@ -325,7 +347,9 @@ inline std::string url(ByteSource& b) {
       break;
     }
     case 1: {  // scheme + odd slash runs
-      static const char* sl[] = {":", ":/", ":///", ":\\\\", ":/\\", ":\\/", "://///", ":////", "://\\", ":\\"};
+      // the last three put a "/." in front of an empty segment: the serialiser's "/." guard
+      // (path starting with "//" on a URL without authority) and the offsets it shifts
+      static const char* sl[] = {":", ":/", ":///", ":\\\\", ":/\\", ":\\/", "://///", ":////", "://\\", ":\\", ":/.//", ":/..//", ":/a/..//"};
       s = scheme(b) + b.pick(sl);
       if (b.chance(200)) s += authority(b);
       s += path(b);
